@@ -46,7 +46,8 @@ def configs(tier):
                t(1, 2, 3, [0x3FF, 0x7FE, 0x7FF, 0], ["crc7fe", "short"], ["in+ack", "out1sof", "ack"]),
                t(8, 1, 1, [0, 1, 0x7FF], ["pid", "long"], ["in+ack", "in", "out0", "tok-other"]),
                t(5, 3, 2, [2, 0x3FF, 0x7FE], ["crc7fe", "short"], ["in", "out0", "ack"]),
-               t(1, 8, 1, list(FRAMES), ["crc1", "long"], ["in+ack"])]
+               t(1, 8, 1, list(FRAMES), ["crc1", "long"], ["in+ack"]),
+               t(1, 1, 1, list(FRAMES), ["crc1", "crc7fe", "long"], ["in+ack", "in", "out0", "ack", "tok-other"])]
     return cs
 
 
